@@ -391,4 +391,532 @@ theorem readLinked_chunks {α : Type} (p : Bytes → Option (α × Bytes)) (enc 
       | [], hat => simp [ChunksAt] at hat
       | [_], hat => simp [ChunksAt] at hat
 
+/-! ### file header -/
+
+def I64 (i : Int) : Prop := -9223372036854775808 ≤ i ∧ i < 9223372036854775808
+
+theorem decHeader_encHeader (h : Header) (r : Bytes)
+    (hb : h.bufSize < 4294967296) (hz : noZero h.hrid) (hl : h.hrid.length ≤ 127)
+    (hds : h.dictSize < 4294967296) (hdo : I64 h.dictOff) (his : h.infoSize < 4294967296)
+    (hio : I64 h.infoOff) (hr : h.rank < 4294967296) (hnt : h.nbThreads < 4294967296)
+    (hto : I64 h.thrOff) : decHeader (encHeader h ++ r) = some h := by
+  have hm : split 32 (pad 32 magick ++ (le 8 byteOrder ++ (le 4 h.bufSize ++ (fixstr 128 h.hrid ++
+      (le 4 h.dictSize ++ (i64 h.dictOff ++ (le 4 h.infoSize ++ (zeros 4 ++ (i64 h.infoOff ++
+      (le 4 h.rank ++ (le 4 h.nbThreads ++ (i64 h.thrOff ++ r))))))))))))
+      = some (pad 32 magick, _) := split_append _ _ _ (by decide)
+  have hmg : (pad 32 magick).take 24 = magick ++ [0] := by decide
+  have hbo : unle (le 8 byteOrder) = byteOrder := unle_le8 _ (by decide)
+  unfold decHeader encHeader
+  simp only [List.append_assoc, split_le, hm, split_fixstr _ _ _ (by decide : 0 < 128), split_i64,
+    split_zeros, hmg, hbo, and_self, if_true, unle_le4 _ hb, unle_le4 _ hds, unle_le4 _ his,
+    unle_le4 _ hr, unle_le4 _ hnt, toI64_i64 _ hdo.1 hdo.2, toI64_i64 _ hio.1 hio.2,
+    toI64_i64 _ hto.1 hto.2, cstr_fixstr 128 _ hz (by omega)]
+
+/-! ### the reader on a placed file -/
+
+theorem chunksAt_head_nonneg (B : Nat) (f : Bytes) (typ : Nat) (o : Int) (os : List Int)
+    (cs : List (Nat × Bytes)) (h : ChunksAt B f typ (o :: os) cs) :
+    0 ≤ o ∧ o < f.length := by
+  have key : ∀ b, readBuf B f o = some b → 0 ≤ o ∧ o < f.length := by
+    intro b hb
+    unfold readBuf at hb
+    by_cases hlt : o < 0
+    · simp [hlt] at hb
+    · simp only [hlt, if_false] at hb
+      refine ⟨by omega, ?_⟩
+      by_cases hlen : f.length ≤ o.toNat
+      · rw [List.drop_eq_nil_of_le hlen] at hb
+        cases B with
+        | zero => simp [split] at hb
+        | succ B => simp [split] at hb
+      · omega
+  match os, cs, h with
+  | [], [c], h => obtain ⟨nx, _, hrb⟩ := h; exact key _ hrb
+  | o' :: os, c :: c' :: cs, h => exact key _ h.1
+
+theorem readStreams_layout (B : Nat) (dict : List KeyDef) (f : Bytes) 
+    (oss : List (List Int)) (ss : List Stream)
+    (hat : EvChunksAt B f oss ss) (hwf : ∀ s ∈ ss, WFStream B dict s) :
+    readStreams B dict f (thrRecs ss (firstOffs oss)) = some ss := by
+  induction ss generalizing oss with
+  | nil =>
+    cases oss with
+    | nil => simp [firstOffs, thrRecs, readStreams]
+    | cons _ _ => simp [EvChunksAt] at hat
+  | cons s ss ih =>
+    cases oss with
+    | nil => simp [EvChunksAt] at hat
+    | cons os oss =>
+      simp only [EvChunksAt] at hat
+      obtain ⟨hlen, hch, hrest⟩ := hat
+      have hs := hwf s (by simp)
+      obtain ⟨_, _, hne, _, hev, _, _, _⟩ := hs
+      have hcap : ∀ e ∈ s.events, evLen e ≤ avail B := fun e he => Nat.le_of_lt (hev e he).2.2.2.2.2.1
+      have hnz := pack_zero_ok (avail B) evLen s.events hcap hne
+      have hrl := readLinked_chunks (decEvent dict) encEvent tyEvents B f (pack (avail B) evLen s.events 0) os
+        (f.length + 1)
+        (fun c hc a ha r => decEvent_encEvent B dict a r (hev a (by
+          rw [← pack_flatten (avail B) evLen s.events 0]
+          exact List.mem_flatten.mpr ⟨c, hc, ha⟩)))
+        (fun c hc => (hnz c hc).1) hch (pack_ne_nil _ _ _ _) (by omega)
+      rw [pack_flatten] at hrl
+      have ih' := ih oss hrest (fun s' hs' => hwf s' (by simp [hs']))
+      simp only [firstOffs, List.map_cons, thrRecs, readStreams] at ih' ⊢
+      simp only [hrl, ne_eq, not_true_eq_false, if_false, ih']
+
+theorem thrRecs_length (ss : List Stream) (os : List Int) (h : os.length = ss.length) :
+    (thrRecs ss os).length = ss.length := by
+  induction ss generalizing os with
+  | nil => cases os <;> simp [thrRecs]
+  | cons s ss ih =>
+    cases os with
+    | nil => simp at h
+    | cons o os => simp [thrRecs, ih os (by simpa using h)]
+
+theorem evChunksAt_length (B : Nat) (f : Bytes) (oss : List (List Int)) (ss : List Stream)
+    (h : EvChunksAt B f oss ss) : oss.length = ss.length := by
+  induction ss generalizing oss with
+  | nil => cases oss with
+    | nil => rfl
+    | cons _ _ => simp [EvChunksAt] at h
+  | cons s ss ih =>
+    cases oss with
+    | nil => simp [EvChunksAt] at h
+    | cons os oss => simp [EvChunksAt] at h; simp [ih oss h.2.2]
+
+/-- every thread record built from a placed file can be decoded. -/
+theorem thrRecs_wf (B : Nat) (dict : List KeyDef) (f : Bytes) (hf : f.length < 9223372036854775808)
+    (oss : List (List Int)) (ss : List Stream)
+    (hat : EvChunksAt B f oss ss) (hwf : ∀ s ∈ ss, WFStream B dict s) :
+    ∀ t ∈ thrRecs ss (firstOffs oss), (∀ r, decThr (encThr t ++ r) = some (t, r)) ∧ thrStride t < avail B := by
+  induction ss generalizing oss with
+  | nil => cases oss <;> simp [firstOffs, thrRecs]
+  | cons s ss ih =>
+    cases oss with
+    | nil => simp [EvChunksAt] at hat
+    | cons os oss =>
+      simp only [EvChunksAt] at hat
+      obtain ⟨_, hch, hrest⟩ := hat
+      obtain ⟨hz, hl, hne, hn, hev, hin, hil, hstr⟩ := hwf s (by simp)
+      intro t ht
+      simp only [firstOffs, List.map_cons, thrRecs, List.mem_cons] at ht
+      rcases ht with h | h
+      · subst h
+        have hoff : I64 (os.headD (-1)) := by
+          cases os with
+          | nil => simp [I64]
+          | cons o os =>
+            have := chunksAt_head_nonneg B f tyEvents o os _ hch
+            simp only [List.headD_cons, I64]; omega
+        exact ⟨fun r => decThr_encThr _ r hn hz hl hoff.1 hoff.2 hin hil, hstr⟩
+      · exact ih oss hrest (fun s' hs' => hwf s' (by simp [hs'])) t h
+
+/-- **The reader inverts every placement of the model writer's buffers.** -/
+theorem decode_of_layout (f : Bytes) (t : Trace) (p : Place) (hwf : WellFormed t)
+    (hf : f.length < 9223372036854775808) (hl : LayoutAt f t p) : decode f = some t := by
+  obtain ⟨_, _, _, _, _, hdne, _, hkeys, _, hstreams⟩ := hwf
+  obtain ⟨⟨h, hdec, hB, hhr, hrk, hds, hnt, hdo, hto⟩, hdl, htl, hdict, hthr, hev⟩ := hl
+  -- dictionary
+  have hkcap : ∀ k ∈ t.dict, keyStride k ≤ avail t.bufSize - 1 := fun k hk => by
+    have := (hkeys k hk).2.2.2.2.2.2; omega
+  have hdnz := pack_zero_ok (avail t.bufSize - 1) keyStride t.dict hkcap hdne
+  have hrd := readCounted_chunks decKey encKey tyDict t.bufSize f (pack (avail t.bufSize - 1) keyStride t.dict 0)
+    p.dictOffs (f.length + 1)
+    (fun c hc a ha r => decKey_encKey t.bufSize a r (hkeys a (by
+      rw [← pack_flatten (avail t.bufSize - 1) keyStride t.dict 0]
+      exact List.mem_flatten.mpr ⟨c, hc, ha⟩)))
+    (fun c hc => (hdnz c hc).1) hdict (pack_ne_nil _ _ _ _) (by omega)
+  rw [pack_flatten] at hrd
+  have hdoff : p.dictOffs.headD (-1) = h.dictOff := by
+    cases hp : p.dictOffs with
+    | nil => simp [hp] at hdo
+    | cons o os => simp [hp] at hdo; simp [hdo]
+  -- threads
+  have hoss := evChunksAt_length _ _ _ _ hev
+  have hrecs := thrRecs_wf t.bufSize t.dict f hf p.evOffs t.streams hev hstreams
+  have hrt : readCounted decThr tyThread t.bufSize f (f.length + 1) h.thrOff t.streams.length
+      = some (thrRecs t.streams (firstOffs p.evOffs)) := by
+    have hlenr := thrRecs_length t.streams (firstOffs p.evOffs) (by simp [firstOffs, hoss])
+    cases hss : t.streams with
+    | nil =>
+      rw [hss] at hthr hoss
+      have : p.evOffs = [] := by cases hq : p.evOffs <;> simp_all
+      rw [this] at hthr
+      simp only [firstOffs, List.map_nil, thrRecs, thrChunks, pack, List.map_cons, chunkOf, List.length_nil] at hthr
+      match hq : p.thrOffs, hthr with
+      | [o], hthr =>
+        rw [hq] at hto; simp at hto; rw [hto]
+        simpa [thrRecs] using readCounted_empty decThr tyThread t.bufSize f o f.length hthr
+      | [], hthr => simp [ChunksAt] at hthr
+      | _ :: _ :: _, hthr => simp [ChunksAt] at hthr
+    | cons s0 ss0 =>
+      have hne : thrRecs t.streams (firstOffs p.evOffs) ≠ [] := by
+        intro hnil; rw [hnil, hss] at hlenr; simp at hlenr
+      have htcap : ∀ r ∈ thrRecs t.streams (firstOffs p.evOffs), thrStride r ≤ avail t.bufSize - 1 :=
+        fun r hr => by have := (hrecs r hr).2; omega
+      have htnz := pack_zero_ok (avail t.bufSize - 1) thrStride _ htcap hne
+      have hr := readCounted_chunks decThr encThr tyThread t.bufSize f
+        (pack (avail t.bufSize - 1) thrStride (thrRecs t.streams (firstOffs p.evOffs)) 0)
+        p.thrOffs (f.length + 1)
+        (fun c hc a ha r => (hrecs a (by
+          rw [← pack_flatten (avail t.bufSize - 1) thrStride (thrRecs t.streams (firstOffs p.evOffs)) 0]
+          exact List.mem_flatten.mpr ⟨c, hc, ha⟩)).1 r)
+        (fun c hc => (htnz c hc).1) hthr (pack_ne_nil _ _ _ _) (by omega)
+      rw [pack_flatten, hlenr, hss] at hr
+      have htoff : p.thrOffs.headD (-1) = h.thrOff := by
+        cases hp : p.thrOffs with
+        | nil => simp [hp] at hto
+        | cons o os => simp [hp] at hto; simp [hto]
+      rw [htoff] at hr
+      rw [← hss] at hr ⊢
+      simpa [hss] using hr
+  have hrs := readStreams_layout t.bufSize t.dict f p.evOffs t.streams hev hstreams
+  unfold decode
+  rw [hdoff] at hrd
+  simp only [hdec, hB, hds, hnt, hrd, hrt, hrs, hhr, hrk]
+
+/-! ### the canonical placement -/
+
+theorem flatten_length_all (B : Nat) (bufs : List Bytes) (h : ∀ b ∈ bufs, b.length = B) :
+    bufs.flatten.length = bufs.length * B := by
+  induction bufs with
+  | nil => simp
+  | cons b bs ih =>
+    have hb := h b (by simp)
+    have := ih (fun x hx => h x (by simp [hx]))
+    simp only [List.flatten_cons, List.length_append, List.length_cons, hb, this, Nat.succ_mul]
+    omega
+
+theorem drop_flatten (B : Nat) (pre : List Bytes) (b : Bytes) (post : List Bytes)
+    (h : ∀ x ∈ pre, x.length = B) :
+    (pre ++ b :: post).flatten.drop (pre.length * B) = b ++ post.flatten := by
+  rw [List.flatten_append, ← flatten_length_all B pre h, List.drop_left]
+  simp
+
+def ChunkFits (B : Nat) (c : Nat × Bytes) : Prop := c.2.length ≤ avail B ∧ c.1 < 18446744073709551616
+
+theorem mkChain_length (B typ : Nat) (start : Nat) (chunks : List (Nat × Bytes)) :
+    (mkChain B typ start chunks).length = chunks.length := by
+  induction chunks generalizing start with
+  | nil => simp [mkChain]
+  | cons c cs ih =>
+    cases cs with
+    | nil => simp [mkChain]
+    | cons c' cs' => simp [mkChain, ih (start + 1)]
+
+theorem mkChain_all_length (B typ : Nat) (start : Nat) (chunks : List (Nat × Bytes))
+    (hB : bufHdrSize ≤ B) (hfit : ∀ c ∈ chunks, ChunkFits B c) :
+    ∀ b ∈ mkChain B typ start chunks, b.length = B := by
+  induction chunks generalizing start with
+  | nil => simp [mkChain]
+  | cons c cs ih =>
+    have hc := (hfit c (by simp)).1
+    cases cs with
+    | nil =>
+      intro b hb
+      simp only [mkChain, List.mem_singleton] at hb
+      subst hb; exact mkBuf_length _ _ _ _ _ _ hB hc
+    | cons c' cs' =>
+      intro b hb
+      simp only [mkChain, List.mem_cons] at hb
+      rcases hb with h | h
+      · subst h; exact mkBuf_length _ _ _ _ _ _ hB hc
+      · exact ih (start + 1) (fun x hx => hfit x (by simp [hx])) b (by simpa [mkChain] using h)
+
+theorem chunksAt_canon (B typ : Nat) (f : Bytes) (pre : List Bytes) (chunks : List (Nat × Bytes))
+    (post : List Bytes)
+    (hf : f = (pre ++ mkChain B typ pre.length chunks ++ post).flatten)
+    (hB : bufHdrSize ≤ B) (hpre : ∀ x ∈ pre, x.length = B) (hne : chunks ≠ [])
+    (hfit : ∀ c ∈ chunks, ChunkFits B c)
+    (hsz : (pre.length + chunks.length) * B < 9223372036854775808) :
+    ChunksAt B f typ (seqOffs B pre.length chunks.length) chunks := by
+  induction chunks generalizing pre with
+  | nil => exact absurd rfl hne
+  | cons c cs ih =>
+    obtain ⟨hc, hcnt⟩ := hfit c (by simp)
+    have hoff : (pre.length * B : Nat) < 9223372036854775808 := by
+      have : pre.length * B ≤ (pre.length + (c :: cs).length) * B :=
+        Nat.mul_le_mul_right _ (by omega)
+      omega
+    cases cs with
+    | nil =>
+      simp only [List.length_cons, List.length_nil, seqOffs, ChunksAt]
+      refine ⟨-1, by omega, ?_⟩
+      apply readBuf_mkBuf B f _ (Int.ofNat (pre.length * B)) (-1) c.1 typ c.2 post.flatten
+        (by simp only [Int.ofNat_eq_natCast]; omega) _ hB hc (by omega) (by omega) hcnt
+      rw [hf]
+      simp only [mkChain, Int.ofNat_eq_natCast, Int.toNat_natCast, List.append_assoc, List.singleton_append]
+      exact drop_flatten B pre _ post hpre
+    | cons c' cs' =>
+      have hoff2 : ((pre.length + 1) * B : Nat) < 9223372036854775808 := by
+        have : (pre.length + 1) * B ≤ (pre.length + (c :: c' :: cs').length) * B :=
+          Nat.mul_le_mul_right _ (by simp)
+        omega
+      simp only [List.length_cons, seqOffs, ChunksAt]
+      constructor
+      · apply readBuf_mkBuf B f _ (Int.ofNat (pre.length * B)) (Int.ofNat ((pre.length + 1) * B)) c.1 typ c.2
+          ((mkChain B typ (pre.length + 1) (c' :: cs') ++ post).flatten)
+          (by simp only [Int.ofNat_eq_natCast]; omega) _ hB hc (by simp only [Int.ofNat_eq_natCast]; omega)
+          (by simp only [Int.ofNat_eq_natCast]; omega) hcnt
+        rw [hf]
+        simp only [mkChain, Int.ofNat_eq_natCast, Int.toNat_natCast, List.append_assoc, List.cons_append]
+        exact drop_flatten B pre _ _ hpre
+      · have hb0 : (mkBuf B (Int.ofNat (pre.length * B)) (Int.ofNat ((pre.length + 1) * B)) c.1 typ c.2).length = B :=
+          mkBuf_length _ _ _ _ _ _ hB hc
+        have := ih (pre ++ [mkBuf B (Int.ofNat (pre.length * B)) (Int.ofNat ((pre.length + 1) * B)) c.1 typ c.2])
+          (by rw [hf]; simp [mkChain])
+          (by intro x hx; simp only [List.mem_append, List.mem_singleton] at hx
+              rcases hx with h | h
+              · exact hpre x h
+              · subst h; exact hb0)
+          (by simp) (fun x hx => hfit x (by simp [hx]))
+          (by simp only [List.length_append, List.length_cons, List.length_nil] at hsz ⊢
+              have : pre.length + 1 + (cs'.length + 1) = pre.length + (cs'.length + 1 + 1) := by omega
+              rw [this]; exact hsz)
+        simpa [seqOffs] using this
+
+theorem length_le_used {α : Type} (len : α → Nat) (h1 : ∀ a, 1 ≤ len a) (c : List α) :
+    c.length ≤ used len c := by
+  induction c with
+  | nil => simp [used]
+  | cons a c ih => have := h1 a; simp [used] at ih ⊢; omega
+
+theorem pack_fits_all {α : Type} (cap : Nat) (len : α → Nat) (l : List α)
+    (hl : ∀ a ∈ l, len a ≤ cap) : ∀ c ∈ pack cap len l 0, used len c ≤ cap := by
+  obtain ⟨c, cs, he, hfit, hcs, _⟩ := pack_ok cap len l 0 hl (Nat.zero_le _)
+  intro c' hc'
+  rw [he] at hc'
+  simp only [List.mem_cons] at hc'
+  rcases hc' with h | h
+  · subst h; omega
+  · exact (hcs c' h).2
+
+theorem chunks_fit {α : Type} (B cap : Nat) (enc : α → Bytes) (len : α → Nat) (l : List α)
+    (henc : ∀ a, (enc a).length = len a) (h1 : ∀ a, 1 ≤ len a)
+    (hl : ∀ a ∈ l, len a ≤ cap) (hcap : cap ≤ avail B) (hB : B < 2147483648) :
+    ∀ c ∈ (pack cap len l 0).map (chunkOf enc), ChunkFits B c := by
+  intro c hc
+  simp only [List.mem_map] at hc
+  obtain ⟨x, hx, rfl⟩ := hc
+  have hu := pack_fits_all cap len l hl x hx
+  have hlen := length_le_used len h1 x
+  have hfl := flatten_map_length enc len x henc
+  simp only [used] at hu hlen
+  simp only [ChunkFits, chunkOf, hfl, avail] at *
+  omega
+
+theorem seqOffs_length (B start n : Nat) : (seqOffs B start n).length = n := by
+  induction n generalizing start with
+  | zero => rfl
+  | succ n ih => simp [seqOffs, ih]
+
+theorem evBufs_length (B start : Nat) (ss : List Stream) : (evBufs B start ss).length = evCount B ss := by
+  induction ss generalizing start with
+  | nil => rfl
+  | cons s ss ih => simp [evBufs, evCount, mkChain_length, ih]
+
+theorem evBufs_all_length (B start : Nat) (ss : List Stream) (hB : bufHdrSize ≤ B)
+    (hfit : ∀ s ∈ ss, ∀ c ∈ evChunks B s, ChunkFits B c) :
+    ∀ b ∈ evBufs B start ss, b.length = B := by
+  induction ss generalizing start with
+  | nil => simp [evBufs]
+  | cons s ss ih =>
+    intro b hb
+    simp only [evBufs, List.mem_append] at hb
+    rcases hb with h | h
+    · exact mkChain_all_length B tyEvents start _ hB (hfit s (by simp)) b h
+    · exact ih _ (fun s' hs' => hfit s' (by simp [hs'])) b h
+
+theorem evChunks_ne_nil (B : Nat) (s : Stream) : evChunks B s ≠ [] := by
+  simp [evChunks, pack_ne_nil]
+
+theorem evChunksAt_canon (B : Nat) (f : Bytes) (pre : List Bytes) (ss : List Stream) (post : List Bytes)
+    (hf : f = (pre ++ evBufs B pre.length ss ++ post).flatten)
+    (hB : bufHdrSize ≤ B) (hpre : ∀ x ∈ pre, x.length = B)
+    (hfit : ∀ s ∈ ss, ∀ c ∈ evChunks B s, ChunkFits B c)
+    (hsz : (pre.length + evCount B ss) * B < 9223372036854775808)
+    (hfl : pre.length + evCount B ss ≤ f.length) :
+    EvChunksAt B f (evPlaces B pre.length ss) ss := by
+  induction ss generalizing pre with
+  | nil => simp [evPlaces, EvChunksAt]
+  | cons s ss ih =>
+    simp only [evPlaces, EvChunksAt, seqOffs_length]
+    simp only [evCount] at hsz hfl
+    refine ⟨by omega, ?_, ?_⟩
+    · apply chunksAt_canon B tyEvents f pre (evChunks B s) (evBufs B (pre.length + (evChunks B s).length) ss ++ post)
+        (by rw [hf]; simp [evBufs]) hB hpre (evChunks_ne_nil B s) (hfit s (by simp))
+      have : (pre.length + (evChunks B s).length) * B ≤ (pre.length + ((evChunks B s).length + evCount B ss)) * B :=
+        Nat.mul_le_mul_right _ (by omega)
+      omega
+    · have hl : (pre ++ mkChain B tyEvents pre.length (evChunks B s)).length = pre.length + (evChunks B s).length := by
+        simp [mkChain_length]
+      have := ih (pre ++ mkChain B tyEvents pre.length (evChunks B s))
+        (by rw [hf, hl]; simp [evBufs])
+        (by intro x hx; simp only [List.mem_append] at hx
+            rcases hx with h | h
+            · exact hpre x h
+            · exact mkChain_all_length B tyEvents _ _ hB (hfit s (by simp)) x h)
+        (fun s' hs' => hfit s' (by simp [hs']))
+        (by rw [hl]; simpa [Nat.add_assoc] using hsz)
+        (by rw [hl]; omega)
+      rw [hl] at this
+      exact this
+
+theorem encHeader_length (h : Header) : (encHeader h).length = fileHdrSize := by
+  simp [encHeader, fixstr_length, fileHdrSize, pad, magick]
+
+theorem head?_headD {α : Type} (l : List α) (d : α) (h : l ≠ []) : some (l.headD d) = l.head? := by
+  cases l with
+  | nil => exact absurd rfl h
+  | cons a l => rfl
+
+theorem seqOffs_headD (B start n : Nat) (hn : n ≠ 0) : (seqOffs B start n).headD (-1) = Int.ofNat (start * B) := by
+  cases n with
+  | zero => exact absurd rfl hn
+  | succ n => rfl
+
+theorem dictChunks_ne_nil (t : Trace) : dictChunks t ≠ [] := by simp [dictChunks, pack_ne_nil]
+theorem thrChunks_ne_nil (B : Nat) (r : List ThreadRec) : thrChunks B r ≠ [] := by simp [thrChunks, pack_ne_nil]
+
+/-- the thread records of the canonical file can be packed (their sizes only depend on the infos). -/
+theorem thrRecs_stride (B : Nat) (dict : List KeyDef) (ss : List Stream) (os : List Int)
+    (hwf : ∀ s ∈ ss, WFStream B dict s) : ∀ r ∈ thrRecs ss os, thrStride r ≤ avail B - 1 := by
+  induction ss generalizing os with
+  | nil => cases os <;> simp [thrRecs]
+  | cons s ss ih =>
+    cases os with
+    | nil => simp [thrRecs]
+    | cons o os =>
+      intro r hr
+      simp only [thrRecs, List.mem_cons] at hr
+      rcases hr with h | h
+      · subst h
+        have := (hwf s (by simp)).2.2.2.2.2.2.2
+        simp only [thrStride]; omega
+      · exact ih os (fun s' hs' => hwf s' (by simp [hs'])) r h
+
+/-- **The model writer's file is a placement of its own buffers.** -/
+theorem layout_encode (t : Trace) (hwf : WellFormed t) (hsz : (encode t).length < 9223372036854775808) :
+    LayoutAt (encode t) t (canonPlace t) := by
+  obtain ⟨hB1, hB2, hhz, hhl, hrk, hdne, hdl, hkeys, hsl, hstreams⟩ := hwf
+  have hB : bufHdrSize ≤ t.bufSize := by simp only [fileHdrSize, bufHdrSize] at *; omega
+  -- the four groups of buffers
+  have hdfit : ∀ c ∈ dictChunks t, ChunkFits t.bufSize c :=
+    chunks_fit t.bufSize (avail t.bufSize - 1) encKey keyStride t.dict encKey_length
+      (fun a => by simp [keyStride, keyTail]; omega)
+      (fun k hk => by have := (hkeys k hk).2.2.2.2.2.2; omega) (by omega) hB2
+  have hefit : ∀ s ∈ t.streams, ∀ c ∈ evChunks t.bufSize s, ChunkFits t.bufSize c := fun s hs =>
+    chunks_fit t.bufSize (avail t.bufSize) encEvent evLen s.events encEvent_length
+      (fun a => by simp [evLen, evBase]; omega)
+      (fun e he => Nat.le_of_lt ((hstreams s hs).2.2.2.2.1 e he).2.2.2.2.2.1) (Nat.le_refl _) hB2
+  have htfit : ∀ os, ∀ c ∈ thrChunks t.bufSize (thrRecs t.streams os), ChunkFits t.bufSize c := fun os =>
+    chunks_fit t.bufSize (avail t.bufSize - 1) encThr thrStride _ encThr_length
+      (fun a => by simp [thrStride, thrFixed]; omega)
+      (thrRecs_stride t.bufSize t.dict t.streams os hstreams) (by omega) hB2
+  -- abbreviations
+  generalize hD : mkChain t.bufSize tyDict 1 (dictChunks t) = D at *
+  generalize hH : headerBuf t (canonPlace t) = H at *
+  have hHl : H.length = t.bufSize := by
+    rw [← hH]; unfold headerBuf
+    exact pad_length _ _ (by rw [encHeader_length]; exact hB1)
+  have hDl : D.length = (dictChunks t).length := by rw [← hD, mkChain_length]
+  have hDa : ∀ b ∈ D, b.length = t.bufSize := by
+    rw [← hD]; exact mkChain_all_length _ _ _ _ hB hdfit
+  have hEl := evBufs_length t.bufSize (1 + (dictChunks t).length) t.streams
+  have hEa := evBufs_all_length t.bufSize (1 + (dictChunks t).length) t.streams hB hefit
+  have hTa := mkChain_all_length t.bufSize tyThread (1 + (dictChunks t).length + evCount t.bufSize t.streams) _ hB
+    (htfit (firstOffs (canonPlace t).evOffs))
+  have hall : ∀ b ∈ encodeBufs t, b.length = t.bufSize := by
+    intro b hb
+    simp only [encodeBufs, hH, hD, List.mem_cons, List.mem_append] at hb
+    rcases hb with h | h | h | h
+    · subst h; exact hHl
+    · exact hDa b h
+    · exact hEa b h
+    · exact hTa b h
+  have hflen : (encode t).length = (encodeBufs t).length * t.bufSize := flatten_length_all _ _ hall
+  have hnb : (encodeBufs t).length = 1 + (dictChunks t).length + evCount t.bufSize t.streams +
+      (thrChunks t.bufSize (thrRecs t.streams (firstOffs (canonPlace t).evOffs))).length := by
+    simp only [encodeBufs, hH, hD, List.length_cons, List.length_append, hDl, hEl, mkChain_length]
+    omega
+  have hBpos : 1 ≤ t.bufSize := by simp only [bufHdrSize] at hB; omega
+  have hnble : (encodeBufs t).length ≤ (encode t).length := by
+    rw [hflen]; exact Nat.le_mul_of_pos_right _ hBpos
+  have hdn0 : (dictChunks t).length ≠ 0 := by
+    have := dictChunks_ne_nil t; intro h; exact this (List.length_eq_zero_iff.mp h)
+  have htn0 : (thrChunks t.bufSize (thrRecs t.streams (firstOffs (canonPlace t).evOffs))).length ≠ 0 := by
+    have := thrChunks_ne_nil t.bufSize (thrRecs t.streams (firstOffs (canonPlace t).evOffs))
+    intro h; exact this (List.length_eq_zero_iff.mp h)
+  have hmul : ∀ k, k ≤ (encodeBufs t).length → k * t.bufSize < 9223372036854775808 := fun k hk => by
+    have : k * t.bufSize ≤ (encodeBufs t).length * t.bufSize := Nat.mul_le_mul_right _ hk
+    omega
+  refine ⟨⟨headerOf t (canonPlace t), ?_, rfl, rfl, rfl, rfl, rfl, ?_, ?_⟩, ?_, ?_, ?_, ?_, ?_⟩
+  · -- header
+    have h1 := hmul 1 (by omega)
+    have h2 := hmul (1 + (dictChunks t).length + evCount t.bufSize t.streams) (by omega)
+    have : encode t = encHeader (headerOf t (canonPlace t)) ++
+        (zeros (t.bufSize - (encHeader (headerOf t (canonPlace t))).length) ++ (encodeBufs t).tail.flatten) := by
+      simp only [encode, encodeBufs, headerBuf, pad, List.flatten_cons, List.tail_cons, List.append_assoc]
+    rw [this]
+    apply decHeader_encHeader
+    · simp only [headerOf]; omega
+    · exact hhz
+    · exact hhl
+    · simp only [headerOf]; omega
+    · simp only [headerOf, canonPlace, seqOffs_headD _ _ _ hdn0, I64, Int.ofNat_eq_natCast]; omega
+    · simp [headerOf]
+    · simp [headerOf, I64]
+    · simp only [headerOf]; omega
+    · simp only [headerOf]; omega
+    · have htn0' := htn0
+      simp only [canonPlace] at htn0'
+      simp only [headerOf, canonPlace, seqOffs_headD _ _ _ htn0', I64, Int.ofNat_eq_natCast]
+      omega
+  · exact head?_headD _ _ (by
+      intro h; have := congrArg List.length h
+      simp only [canonPlace, seqOffs_length, List.length_nil] at this; exact hdn0 this)
+  · exact head?_headD _ _ (by
+      intro h; have := congrArg List.length h
+      simp only [canonPlace, seqOffs_length, List.length_nil] at this; exact htn0 this)
+  · simp only [canonPlace, seqOffs_length]; omega
+  · simp only [canonPlace, seqOffs_length]; simp only [canonPlace] at hnb; omega
+  · -- dictionary chain
+    have := chunksAt_canon t.bufSize tyDict (encode t) [H] (dictChunks t)
+      (evBufs t.bufSize (1 + (dictChunks t).length) t.streams ++
+        mkChain t.bufSize tyThread (1 + (dictChunks t).length + evCount t.bufSize t.streams)
+          (thrChunks t.bufSize (thrRecs t.streams (firstOffs (canonPlace t).evOffs))))
+      (by simp [encode, encodeBufs, hH, hD]) hB (by simpa using hHl) (dictChunks_ne_nil t) hdfit
+      (by apply hmul; simp only [List.length_singleton]; omega)
+    simpa [canonPlace] using this
+  · -- thread chain
+    have hpl : (H :: (D ++ evBufs t.bufSize (1 + (dictChunks t).length) t.streams)).length =
+        1 + (dictChunks t).length + evCount t.bufSize t.streams := by
+      simp [hDl, hEl]; omega
+    have := chunksAt_canon t.bufSize tyThread (encode t)
+      (H :: (D ++ evBufs t.bufSize (1 + (dictChunks t).length) t.streams))
+      (thrChunks t.bufSize (thrRecs t.streams (firstOffs (canonPlace t).evOffs))) []
+      (by rw [hpl]; simp [encode, encodeBufs, hH, hD]) hB
+      (by intro x hx; simp only [List.mem_cons, List.mem_append] at hx
+          rcases hx with h | h | h
+          · subst h; exact hHl
+          · exact hDa x h
+          · exact hEa x h)
+      (thrChunks_ne_nil _ _) (htfit _)
+      (by apply hmul; rw [hpl]; omega)
+    rw [hpl] at this
+    simpa [canonPlace] using this
+  · -- event chains
+    have hpl : (H :: D).length = 1 + (dictChunks t).length := by simp [hDl]; omega
+    have := evChunksAt_canon t.bufSize (encode t) (H :: D) t.streams
+      (mkChain t.bufSize tyThread (1 + (dictChunks t).length + evCount t.bufSize t.streams)
+          (thrChunks t.bufSize (thrRecs t.streams (firstOffs (canonPlace t).evOffs))))
+      (by rw [hpl]; simp [encode, encodeBufs, hH, hD]) hB
+      (by intro x hx; simp only [List.mem_cons] at hx
+          rcases hx with h | h
+          · subst h; exact hHl
+          · exact hDa x h)
+      hefit (by apply hmul; rw [hpl]; omega) (by rw [hpl]; omega)
+    rw [hpl] at this
+    simpa [canonPlace] using this
+
 end ParsecVerif.Profile
